@@ -69,7 +69,8 @@ def main(argv):
         if state['n'] % 500 == 0:
             dump()
 
-    corpus = tempfile.mkdtemp(prefix='vv-fuzz-%s-' % pid)
+    corpus = out + '.corpus'     # inside the run's scratch directory
+    os.makedirs(corpus, exist_ok=True)
     args = [sys.argv[0], '-runs=%d' % runs, '-seed=%d' % (seed or 1),
             '-max_len=8192', '-verbosity=0', '-print_final_stats=0', corpus]
     dump()
